@@ -74,8 +74,13 @@ func (ss *seedSet) add(name, dec string, data []byte, ntab int) {
 		}
 		ntab = 0
 	}
+	ngid := 0
+	if dec == "sfnt" {
+		w, _ := GidWords(data)
+		ngid = len(w)
+	}
 	ss.list = append(ss.list, &Seed{ID: len(ss.list) + 1, Name: name, Dec: dec, Len: len(data), MLen: mlen,
-		NTab: ntab, Data: data, Formats: FormatsOf(dec, data)})
+		NTab: ntab, NGid: ngid, Data: data, Formats: FormatsOf(dec, data)})
 }
 
 // addFont adds a whole font file, its directory and every table that has a stand-alone decoder.
@@ -158,6 +163,25 @@ func BuildSeeds(lim Limits) ([]*Seed, error) {
 			return nil, err
 		}
 	}
+	{
+		// a TrueType font whose cmap maps the characters the reader looks up itself ('x', 'H')
+		o := fonts.Opts{Kind: "ttf", N: 12, Cmap: "4"}
+		f := fonts.Make(vio.Rand(198), o)
+		m := cmap.Format4{'x': 5, 'H': 6, ' ': 1, 'f': 7, 'i': 8, 'l': 9}
+		for i := 2; i < 5; i++ {
+			m[uint16(fonts.CodeOf(i, false))] = glyph.ID(i)
+		}
+		f.InstallCMap(m)
+		var buf bytes.Buffer
+		if _, err := f.Write(&buf); err != nil {
+			return nil, fmt.Errorf("cannot write the x/H seed font: %v", err)
+		}
+		if err := ss.addFont("ttf-n12-cmap-xH", buf.Bytes()); err != nil {
+			return nil, err
+		}
+	}
+	// Type 2 charstrings: every operator of the decoder in a valid program
+	ss.add("hand/cff-t2-all-operators", "cff", T2AllOperators(), 0)
 	// hand-made CFF fonts for the structures the library's writer never produces
 	ss.add("hand/cff-charset0-enc0-off1", "cff", handCFF(cffOpt{charset: 0, enc: 0, offSize: [6]int{1, 1, 1, 1, 1, 1}}), 0)
 	ss.add("hand/cff-charset1-enc1supp-off2-subrs", "cff", handCFF(cffOpt{charset: 1, enc: 1, supp: true, subrs: true, offSize: [6]int{2, 2, 2, 2, 2, 2}}), 0)
@@ -541,4 +565,88 @@ func handCFF(o cffOpt) []byte {
 	out = append(out, priv...)
 	out = append(out, lsub...)
 	return out
+}
+
+// CFFWithCharstrings lays out a minimal simple CFF font (predefined charset and encoding) with
+// the given glyph programs after .notdef, global subroutines and local subroutines.
+func CFFWithCharstrings(glyphs, gsubrs, lsubrs [][]byte) []byte {
+	num := func(v int) []byte { return []byte{29, byte(v >> 24), byte(v >> 16), byte(v >> 8), byte(v)} }
+	name := cffIndexBytes(1, []byte("T2"))
+	gsub := cffIndexBytes(2, gsubrs...)
+	chars := cffIndexBytes(2, append([][]byte{{14}}, glyphs...)...)
+	var priv, lsub []byte
+	if len(lsubrs) > 0 {
+		priv = append(num(6), 19)
+		lsub = cffIndexBytes(2, lsubrs...)
+	}
+	const topLen = 17
+	pos := 4 + len(name) + (3 + 2 + topLen) + 2 + len(gsub)
+	top := append(num(pos), 17)
+	pos += len(chars)
+	top = append(top, num(len(priv))...)
+	top = append(top, append(num(pos), 18)...)
+	out := []byte{1, 0, 4, 2}
+	out = append(out, name...)
+	out = append(out, cffIndexBytes(1, top)...)
+	out = append(out, 0, 0)
+	out = append(out, gsub...)
+	out = append(out, chars...)
+	out = append(out, priv...)
+	return append(out, lsub...)
+}
+
+// T2Num encodes an integer operand of a Type 2 charstring in its shortest form.
+func T2Num(v int) []byte {
+	switch {
+	case v >= -107 && v <= 107:
+		return []byte{byte(v + 139)}
+	case v >= 108 && v <= 1131:
+		return []byte{byte(247 + (v-108)>>8), byte(v - 108)}
+	case v <= -108 && v >= -1131:
+		return []byte{byte(251 + (-v-108)>>8), byte(-v - 108)}
+	}
+	return []byte{28, byte(v >> 8), byte(v)}
+}
+
+// t2 assembles a program: ints are operands, []byte are copied, negative-free opcodes are given
+// as op(n) values.
+type op int
+
+func t2(items ...any) []byte {
+	var b []byte
+	for _, it := range items {
+		switch v := it.(type) {
+		case int:
+			b = append(b, T2Num(v)...)
+		case op:
+			if v >= 1200 {
+				b = append(b, 12, byte(v-1200))
+			} else {
+				b = append(b, byte(v))
+			}
+		case []byte:
+			b = append(b, v...)
+		}
+	}
+	return b
+}
+
+// T2AllOperators is a CFF font whose six glyphs use every operator of cff/t2decode.go once in
+// a valid program (hints and masks, all path operators, the four flex forms, arithmetic,
+// put/get, index/roll, conditionals, both subroutine calls, every number encoding).
+func T2AllOperators() []byte {
+	a := t2(10, 20, op(1), 30, 40, op(3), op(19), []byte{0xC0}, op(20), []byte{0xC0}, 100, 100, op(21),
+		10, 10, op(5), 20, op(6), 20, op(7), 1, 2, 3, 4, 5, 6, op(8), op(14))
+	b := t2(10, 20, op(18), 30, 40, op(23), 50, op(22), 1, 2, 3, 4, 5, 6, 7, 8, op(24), 1, 2, 3, 4, 5, 6, 7, 8, op(25),
+		1, 2, 3, 4, op(26), 1, 2, 3, 4, op(27), 1, 2, 3, 4, op(30), 1, 2, 3, 4, op(31), 60, op(4), 5, op(6), op(14))
+	c := t2(0, 0, op(21), 1, 2, 3, 4, 5, 6, 7, 8, 9, 10, 11, 12, 50, op(1235), 1, 2, 3, 4, 5, 6, 7, op(1234),
+		1, 2, 3, 4, 5, 6, 7, 8, 9, op(1236), 1, 2, 3, 4, 5, 6, 7, 8, 9, 10, 11, op(1237), op(14))
+	d := t2(5, op(1209), 3, op(1210), 2, op(1211), 2, op(1212), op(1214), 4, op(1224), 16, op(1226), op(1218),
+		op(1223), op(1218), 7, op(1228), 1, op(1229), 3, 1, op(1230), op(1227), 5, op(1220), 5, op(1221),
+		op(1203), op(1204), op(1205), op(1215), 1, 2, 3, 4, op(1222), op(21), 10, op(6), op(1200), op(14))
+	e := t2(-107, op(29), -107, op(10), op(14))
+	f := t2([]byte{28, 1, 44}, []byte{255, 0, 10, 128, 0}, op(21), []byte{247, 10}, []byte{251, 10}, op(5), op(14))
+	gs := t2(10, 20, op(21), op(11))
+	ls := t2(5, op(6), op(11))
+	return CFFWithCharstrings([][]byte{a, b, c, d, e, f}, [][]byte{gs}, [][]byte{ls})
 }
